@@ -31,7 +31,7 @@ COMPONENTS = {
     "stub_or_harness": ["history generator", "WriterModel reference model"],
 }
 PROBES = [
-    "same_string_in_both_modes", "argument_of_a_subclass_type", "caller_mode_on_around_generated_code", "generated_enum_width_overrides", "generated_serializer_after_chunked", "generated_plain_struct_in_both_modes", "second_writer_interleaved", "refusal_on_nonempty_buffer", "refusal_right_after_mode_toggle", "perfect_fit_padded",
+    "same_string_in_both_modes", "argument_of_a_subclass_type", "packet_into_sanitising_writer", "caller_mode_on_around_generated_code", "generated_enum_width_overrides", "generated_serializer_after_chunked", "generated_plain_struct_in_both_modes", "second_writer_interleaved", "refusal_on_nonempty_buffer", "refusal_right_after_mode_toggle", "perfect_fit_padded",
     "y_diaeresis_sanitized", "y_diaeresis_unsanitized", "to_bytearray_is_copy", "refusal_far_beyond_limit",
     "refusal_string_one_too_long", "refusal_string_one_too_short",
 ]
@@ -180,6 +180,31 @@ def run_generated(plan, env, res, tr):
             return {"kind": "appended-bytes", "signature": "C09|appended-bytes|generated-serializer|sanitize=True",
                     "detail": f"sanitisation switched on by the caller, then {what}, then add_string('\u00ffz'): the writer holds {got.hex()} "
                               f"(mode now {bool(w.string_sanitization_mode)}), asked for was {expect.hex()} with the mode still on", "step": 0}
+    # a whole packet handed to a writer the caller has switched to sanitising, through write(): every string of it is
+    # sanitised, also those outside its <chunked> section (the header `h`)
+    h2 = (g["inside"] + "\u00ffx")[-2:] if len(g["inside"]) % 2 else ("\u00ff" + g["tail"] + "x")[:2]
+    pkt = srv.TalkTellServerPacket(h=h2, s1=g["inside"], inner=net.InnerChunked(a=g["tail"], b=g["flag"]), s2=g["tail"], kind=2,
+                                   kind_data=None, k=g["flag"] * 3, s3="z")
+    for through_write in (True, False):
+        w = EoWriter()
+        w.string_sanitization_mode = True
+        m = WriterModel()
+        m.sanitize = True
+        expect = (m.image("add_fixed_string", [h2, 2, False]) + m.image("add_string", [g["inside"]]) + b"\xff"
+                  + m.image("add_string", [g["tail"]]) + b"\xff" + m.image("add_short", [g["flag"]]) + b"\xff"
+                  + m.image("add_fixed_string", ["\u00ffes", 3, False]) + m.image("add_string", [g["tail"]]) + b"\xff"
+                  + m.image("add_char", [2]) + b"\xff" + m.image("add_three", [g["flag"] * 3]) + m.image("add_encoded_string", ["z"]))
+        if through_write:
+            pkt.write(w)
+        else:
+            srv.TalkTellServerPacket.serialize(w, pkt)
+        got = bytes(w.to_bytearray())
+        res.count("probe.packet_into_sanitising_writer")
+        tr.ev("generated-packet-mode-on", through_write, got.hex())
+        if got != expect or not w.string_sanitization_mode:
+            return {"kind": "appended-bytes", "signature": "C09|appended-bytes|generated-serializer|sanitize=True",
+                    "detail": f"TalkTellServerPacket(h={h2!r}, ...) {'written with write()' if through_write else 'serialized'} into a writer the "
+                              f"caller switched to sanitising gave {got.hex()} (mode now {bool(w.string_sanitization_mode)}); asked for was {expect.hex()}", "step": 0}
     # one enum referred to with and without an underlying-type override: each field is written with ITS width
     ks = [g["flag"] % 253, (g["flag"] * 251) % 64009, (g["flag"] * 64007 + 5) % (253 ** 3), (g["flag"] // 3) % 253]
     wd = net.Widths(k1=net.Kind(ks[0]), k2=net.Kind(ks[1]), k3=net.Kind(ks[2]), k4=net.Kind(ks[3]))
